@@ -38,7 +38,8 @@ Flag(cond, name) == IF cond THEN {} ELSE {name}
 
 \* runs that are stopped from outside mid-run (user cancel, forwarded provider failure): reports of shots in
 \* flight at the stop may be lost (PoolAgg.tla: late)
-StopModes == {"cancel", "provfail"}
+\* ("hang": cancelled from outside while every instance is inside a shot that does not come back, TracePoolAgg.tla)
+StopModes == {"cancel", "provfail", "hang"}
 
 \* the abstract sample of a logged report
 Abs(s) == [sec |-> s.sec, ms |-> s.ms, tag |-> s.tag, tagp |-> (IF "tagp" \in DOMAIN s THEN s.tagp ELSE <<>>), id |-> s.id, f |-> s.f]
@@ -99,7 +100,7 @@ SinkFault == /\ Ev.ev = "SinkFault"
 
 Cancel == /\ Ev.ev = "Cancel"
           /\ cancelled' = TRUE
-          /\ before' = IF mode = "cancel" THEN Ev.returned_before ELSE before
+          /\ before' = IF mode \in {"cancel", "hang"} THEN Ev.returned_before ELSE before
           /\ UNCHANGED <<kind, ids, mode, pending, nrep, nmatched, nwritten, closed, ended, bad, fault, faulted>>
 
 SinkClosed == /\ Ev.ev = "SinkClosed"
